@@ -225,6 +225,73 @@ example : partitionsDivs [0, 5, 9] [1, 0] = some [5, 0, 5] := by decide
 example : partitionsDivs [0, 5, 9, 12] [0, 2] = some [0, 9, 12] := by decide
 
 
+/-- **tofewer_truthful**: `RepartitionToFewer` (and every "concatenate contiguous partitions" layer, e.g.
+    `RepartitionSize` without splitting) keeps known divisions truthful: output `j` concatenates the input
+    partitions `bs[j] … bs[j+1]-1` and reports the divisions `divs[bs[j]]`. -/
+theorem tofewer_truthful {α : Type} (key : α → Nat) (divs : List Nat) (parts : List (List α))
+    (bs d' : List Nat) (h : Truthful key divs parts)
+    (hpw : bs.Pairwise (· < ·)) (hlast : bs.getLast? = some parts.length)
+    (hd : toFewerDivs divs bs = some d') :
+    Truthful key d' ((chunks parts bs).map List.flatten) := by
+  obtain ⟨hlen, hsorted, hrows⟩ := h
+  unfold toFewerDivs at hd
+  obtain ⟨hdlen, hdget⟩ := mapM_getElem? _ bs d' hd
+  have hle := le_last_of_strict bs _ hpw hlast
+  have hdiv_le : ∀ (a b x y : Nat), a ≤ b → divs[a]? = some x → divs[b]? = some y → x ≤ y := by
+    intro a b x y hab hx hy
+    rcases Nat.eq_or_lt_of_le hab with rfl | hlt
+    · rw [hx] at hy; cases hy; exact Nat.le_refl _
+    · obtain ⟨ha', rfl⟩ := List.getElem?_eq_some_iff.mp hx
+      obtain ⟨hb', rfl⟩ := List.getElem?_eq_some_iff.mp hy
+      exact (List.pairwise_iff_getElem.mp hsorted) a b ha' hb' hlt
+  have hbs_pos : 0 < bs.length := by
+    cases bs with
+    | nil => simp at hlast
+    | cons _ _ => simp
+  refine ⟨by rw [List.length_map, chunks_length]; omega, ?_, ?_⟩
+  · rw [List.pairwise_iff_getElem]
+    intro i j hi hj hij
+    have hib : i < bs.length := by omega
+    have hjb : j < bs.length := by omega
+    obtain ⟨y1, hy1, hf1⟩ := hdget i _ (List.getElem?_eq_getElem hib)
+    obtain ⟨y2, hy2, hf2⟩ := hdget j _ (List.getElem?_eq_getElem hjb)
+    rw [List.getElem?_eq_getElem hi] at hy1
+    rw [List.getElem?_eq_getElem hj] at hy2
+    cases hy1; cases hy2
+    have := (List.pairwise_iff_getElem.mp hpw) i j hib hjb hij
+    exact hdiv_le _ _ _ _ (Nat.le_of_lt this) hf1 hf2
+  · intro j p lo hi hp hlo hhi r hr
+    rw [List.getElem?_map, Option.map_eq_some_iff] at hp
+    obtain ⟨ch, hch, rfl⟩ := hp
+    obtain ⟨a, b, ha, hb, rfl⟩ := (chunks_getElem? parts bs j ch).mp hch
+    obtain ⟨pq, hpq, hrq⟩ := List.mem_flatten.mp hr
+    obtain ⟨q, haq, hqb, hq⟩ := mem_pySlice parts a b pq hpq
+    have hqlt : q < parts.length := (List.getElem?_eq_some_iff.mp hq).1
+    obtain ⟨ya, hya, hfa⟩ := hdget j a ha
+    obtain ⟨yb, hyb, hfb⟩ := hdget (j + 1) b hb
+    rw [hlo] at hya; cases hya
+    rw [hhi] at hyb; cases hyb
+    have hdq := List.getElem?_eq_getElem (l := divs) (i := q) (by omega)
+    have hdq1 := List.getElem?_eq_getElem (l := divs) (i := q + 1) (by omega)
+    obtain ⟨hlow, hup⟩ := hrows q pq _ _ hq hdq hdq1 r hrq
+    refine ⟨Nat.le_trans (hdiv_le a q _ _ haq hfa hdq) hlow, ?_⟩
+    have hble : b ≤ parts.length := hle b (List.mem_of_getElem? hb)
+    rcases hup with h1 | ⟨h2, h3⟩
+    · left; exact Nat.lt_of_lt_of_le h1 (hdiv_le (q + 1) b _ _ (by omega) hdq1 hfb)
+    · right
+      have hbe : b = parts.length := by omega
+      have hidx := idx_of_last bs _ hpw hlast (j + 1) (by rw [hb, hbe])
+      refine ⟨by rw [List.length_map, chunks_length]; omega, ?_⟩
+      have : divs[q + 1]? = some hi := by
+        have : q + 1 = b := by omega
+        rw [this]; exact hfb
+      rw [hdq1] at this
+      cases this
+      exact h3
+
+example : toFewerDivs [0, 3, 5, 9, 12] [0, 2, 4] = some [0, 5, 12] := by decide
+
+
 /-! non-vacuity -/
 example : sdl ([(0 : Nat), 0, 1, 1, 1, 1, 2, 2, 4, 5, 5, 5, 5].map id) (.npartitions 4) =
     some ([0, 1, 2, 5, 5], [0, 2, 6, 9, 13]) := by decide
